@@ -405,8 +405,8 @@ func (vt *Model) il(ps int) {
 		ps = 1
 	}
 
-	if int(vt.margin.bottom-vt.cursor.row) < (ps - 1) {
-		ps = int(vt.margin.bottom - vt.cursor.row)
+	if remaining := int(vt.margin.bottom-vt.cursor.row) + 1; ps > remaining {
+		ps = remaining
 	}
 
 	// move the lines first
@@ -450,8 +450,8 @@ func (vt *Model) dl(ps int) {
 		ps = 1
 	}
 
-	if int(vt.margin.bottom-vt.cursor.row) < (ps - 1) {
-		ps = int(vt.margin.bottom - vt.cursor.row)
+	if remaining := int(vt.margin.bottom-vt.cursor.row) + 1; ps > remaining {
+		ps = remaining
 	}
 
 	for r := vt.cursor.row; r <= vt.margin.bottom; r += 1 {
